@@ -158,10 +158,17 @@ def main():
     os.environ.setdefault("VERIF_INNER", "3")
     timeout_ms = 8000 if tier == "quick" else 30000
 
-    quals = sorted(q for q, K in registry.CONTRACTS.items() if prop in K.props and not K.trusted)
-    trusted = sorted(q for q, K in registry.CONTRACTS.items() if prop in K.props and K.trusted)
     ledger = json.load(open(LEDGER)) if os.path.exists(LEDGER) else {}
-    hints = {oid: v.get("strategy") for oid, v in ledger.get(prop, {}).items() if isinstance(v, dict) and v.get("strategy") not in (None, "plain-fast")}
+    tagged = sorted(q for q, K in registry.CONTRACTS.items() if prop in K.props and not K.trusted)
+    findings_all = json.load(open(FINDINGS)) if os.path.exists(FINDINGS) else []
+    quals = _closure(prop, tagged, ledger, registry.CONTRACTS, findings_all) if cfg.get("closure", True) else tagged
+    trusted = sorted(q for q, K in registry.CONTRACTS.items() if (prop in K.props or q in quals) and K.trusted)
+    quals = [q for q in quals if not registry.CONTRACTS[q].trusted]
+    hints = {}
+    for p_, obl_ in ledger.items():  # the strategy that discharged an obligation is a fact about the obligation, whichever property's run recorded it
+        if p_ != "__deps__":
+            hints.update({oid: v.get("strategy") for oid, v in obl_.items() if isinstance(v, dict) and v.get("strategy") not in (None, "plain-fast")})
+    hints.update({oid: v.get("strategy") for oid, v in ledger.get(prop, {}).items() if isinstance(v, dict) and v.get("strategy") not in (None, "plain-fast")})
     cross_dir = None
     if tier == "thorough" and not a.update_ledger:
         # second-solver cross-check: the quantifier-free cores z3 5.1 refutes are written out and re-checked by other binaries
@@ -362,6 +369,35 @@ def main():
     print("%s: %d/%d obligations discharged, %s, %.1fs" % (prop, n_dis, n_obl,
           "native %d evaluations, %d failures" % (native.get("evaluations", 0), len(native.get("failures", []))) if native else "no native stand-in", time.time() - t0))
     sys.exit(1 if violations else 0)
+
+
+def _closure(prop, tagged, ledger, contracts, findings):
+    """the contracts tagged with the property plus every contract they rest on: callees under contract (the `call-pre:<callee>#k`
+    obligations of the ledger give the call edges) transitively.  A property is only as good as the functions its operations call,
+    so a change to any of them is re-verified by this property's check.  Functions with a recorded open finding of ANOTHER property
+    are not pulled in (their known undischarged obligation belongs to that property's check)."""
+    import re
+    edges = {}
+    for p, obl in ledger.items():
+        if p == "__deps__":
+            continue
+        for oid in obl:
+            m = re.match(r"([^/]+)/call-pre:([^#]+)#", oid)
+            if m:
+                edges.setdefault("measured." + m.group(1) if not m.group(1).startswith("lemmas.") else m.group(1), set()).add("measured." + m.group(2))
+    foreign = set()
+    for f in findings:
+        if f.get("status") == "open" and f.get("property") != prop:
+            for o in f.get("obligations", [f.get("obligation")] if f.get("obligation") else []):
+                foreign.add("measured." + o.split("/")[0])
+    seen, todo = set(tagged), list(tagged)
+    while todo:
+        q = todo.pop()
+        for c in edges.get(q, ()):
+            if c in contracts and c not in seen and c not in foreign:
+                seen.add(c)
+                todo.append(c)
+    return sorted(seen)
 
 
 def _count(it):
